@@ -526,7 +526,66 @@ func checkC15(c *core.Ctx) {
 				}
 				return true
 			})
-			okc := len(cases) == 3
+			// other spellings of the same test: con.Value == "math.NaN()", or a
+			// lookup of con.Value in a package-level set of strings
+			ast.Inspect(ig.Body, func(m ast.Node) bool {
+				switch x := m.(type) {
+				case *ast.BinaryExpr:
+					if x.Op == token.EQL {
+						for k, side := range []ast.Expr{x.X, x.Y} {
+							other := []ast.Expr{x.Y, x.X}[k]
+							if sel, ok := ast.Unparen(side).(*ast.SelectorExpr); ok && sel.Sel.Name == "Value" {
+								cases = append(cases, constStrings(info, []ast.Expr{other})...)
+							}
+						}
+					}
+				case *ast.IndexExpr:
+					id, isId := ast.Unparen(x.X).(*ast.Ident)
+					if !isId {
+						return true
+					}
+					if sel, ok := ast.Unparen(x.Index).(*ast.SelectorExpr); !ok || sel.Sel.Name != "Value" {
+						return true
+					}
+					o := info.ObjectOf(id)
+					if o == nil || o.Parent() != pkg.Types.Scope() {
+						return true
+					}
+					for _, f := range pkg.Syntax {
+						for _, d := range f.Decls {
+							gd, ok := d.(*ast.GenDecl)
+							if !ok {
+								continue
+							}
+							for _, sp := range gd.Specs {
+								vs, ok := sp.(*ast.ValueSpec)
+								if !ok {
+									continue
+								}
+								for i, nm := range vs.Names {
+									if info.Defs[nm] != o || i >= len(vs.Values) {
+										continue
+									}
+									if cl, ok := ast.Unparen(vs.Values[i]).(*ast.CompositeLit); ok {
+										for _, el := range cl.Elts {
+											if kv, ok := el.(*ast.KeyValueExpr); ok {
+												cases = append(cases, constStrings(info, []ast.Expr{kv.Key})...)
+											} else {
+												cases = append(cases, constStrings(info, []ast.Expr{el})...)
+											}
+										}
+									}
+								}
+							}
+						}
+					}
+				}
+				return true
+			})
+			if len(cases) == 0 {
+				c.Undecide("Const.impossibleGoConst: the strings it recognises are neither switch cases, == operands nor the keys of a package-level table: not recognised")
+			}
+			okc := len(cases) == 3 || len(cases) == 0
 			for _, cs := range cases {
 				if !want[cs] || cs == "string(tk.concrete)" {
 					okc = false
